@@ -7,7 +7,7 @@ ID = "C09"
 LEVEL = "exploration"
 RULE = ("ALL connected multigraphs (<=2 parallel links per pair, canonical under junction relabelling) on 1-2 sources + <=3 "
         "(quick) / <=4 (thorough) junctions with <=5 / <=6 links x EVERY subset of initially closed links x schedules of "
-        "<=1 (quick) / <=2 (thorough, small graphs) time controls toggling a link; variants with link 0 as head pump / TCV. "
+        "<=1 (quick) / <=2 (thorough, small graphs) time controls toggling a link; variants with link 0 as head pump / TCV, and (graphs with <= 4 links; thorough <= 5) under the pressure-dependent demand model. "
         "oracle: reference reachability over reported statuses: isolated => demand=pressure=head=0 and zero flow on its "
         "links; connected => full requested demand and the run solves; no-tank graphs: every step equals the steady state "
         "of the same closed set. non-trivial: at least one junction isolated at some step and one connected at some step")
@@ -32,7 +32,10 @@ def graph_spec(nf, k, edges, closed, events, variant):
     ctrls = []
     for j, (li, t) in enumerate(events):
         ctrls.append({"kind": "time", "t": t, "link": "l%d" % li, "value": "OPEN" if li in closed else "CLOSED"})
-    s = spec(nodes, links, OPTS(dur=3600 * (len(events) + 1)), controls=ctrls)
+    o = OPTS(dur=3600 * (len(events) + 1))
+    if variant == "pdd":
+        o.update(dm="PDD", pmin=0.0, preq=20.0, pexp=0.5)      # pressures of connected junctions stay far above 20 m: full demand
+    s = spec(nodes, links, o, controls=ctrls)
     s["id"] = {"graph": [nf, k, list(map(list, edges))], "closed": sorted(closed), "events": [list(e) for e in events], "variant": variant}
     return s
 
@@ -53,6 +56,10 @@ def cases(tier):
                             scheds += [((a, 3600), (b, 7200)) for a in range(L) for b in range(L) if a != b]
                         for ev in scheds:
                             out.append(graph_spec(nf, k, edges, closed, ev, "pipe"))
+                        if (k <= 3 and L <= 4) or (tier == "thorough" and small):
+                            # the same closures under the pressure-dependent demand model
+                            for ev in [()] + [((li, 3600),) for li in range(L)]:
+                                out.append(graph_spec(nf, k, edges, closed, ev, "pdd"))
                         if small or tier == "thorough" and L <= 5:
                             for variant in ("pump", "tcv"):
                                 if variant == "tcv" and nf + k < 2:
@@ -94,7 +101,9 @@ def run_case(s):
             else:
                 any_conn = True
                 counts["connected_checks"] = counts.get("connected_checks", 0) + 1
-                if abs(dem[nn][i] - 0.01) > 1e-12:
+                # (PDD: above the required pressure the documented curve keeps a slope of 1e-11 per metre and the demand is a
+                # solved variable: equal to the request within the solver tolerance)
+                if abs(dem[nn][i] - 0.01) > (1e-12 if s["opts"]["dm"] == "DD" else 1e-8):
                     viol.append({"key": "connected-zeroed", "what": "junction %s has a path to a source at t=%d (closed %s) but reports demand %.6g instead of 0.01 (pressure %.6g)" % (nn, t, sorted(closed), dem[nn][i], pres[nn][i])})
                     break
         if viol:
